@@ -30,7 +30,7 @@ class C08Mixin(object):
         if isinstance(reg, dict):
             fp["#registered"] = sorted(reg)
         for name, t in self._registry().items():
-            els = list(getattr(t, "_element", {}).values()) or list(t)
+            els = list(t)
             ni = nq = 0
             for el in els:
                 isos = getattr(el, "_isotopes", None)
@@ -223,8 +223,7 @@ class C08Mixin(object):
 
         els = list(t)
         nums = [e.number for e in els]
-        chk(nums == sorted(set(nums)) and len(nums) == len(getattr(t, "_element", nums)),
-            "iter(T) not strictly increasing")
+        chk(nums == sorted(set(nums)), "iter(T) not strictly increasing")
         if zs is not None:
             els = [t[z] for z in zs]
         tname = tbl
